@@ -26,6 +26,13 @@ type goPanic struct {
 	Exit  bool // runtime.Goexit / os.Exit pseudo-panics
 }
 
+// Sib is an unexplored sibling path: a decision prefix plus (optionally) a
+// solver model witnessing the path condition at its last decision.
+type Sib struct {
+	Prefix []int
+	Model  map[string]ModelValue
+}
+
 type deferred struct {
 	fn   V
 	args []V
@@ -78,7 +85,7 @@ type Interp struct {
 	decisions []int
 	forced    []bool
 	pc        []*Term // path condition (for reporting)
-	newSibs   [][]int
+	newSibs   []Sib
 	steps     int64
 	MaxSteps  int64
 	MaxDecisions int
@@ -120,6 +127,12 @@ type Interp struct {
 	concFailures   []string
 	concReached    []string
 	lastClock      *Term
+	facts          []factEnt
+	model          map[string]ModelValue
+	evalMemo       map[*Term]*Term
+	allVars        []*Term
+	NoModelGuide   bool
+	factMap        map[string]bool
 	// speculation (merge.go)
 	spec         int
 	specBase     int
@@ -333,7 +346,31 @@ func (in *Interp) set(fr *Frame, v ssa.Value, val V) {
 
 func (in *Interp) freshVar(prefix string, s Sort) *Term {
 	in.varSeq++
-	return NewVar(fmt.Sprintf("%s!%d", prefix, in.varSeq), s)
+	v := NewVar(fmt.Sprintf("%s!%d", prefix, in.varSeq), s)
+	in.allVars = append(in.allVars, v)
+	return v
+}
+
+// checkModel is CheckWith that also fetches a model on sat.
+func (in *Interp) checkModel(extra *Term) (Result, map[string]ModelValue) {
+	if extra.IsFalse() {
+		return Unsat, nil
+	}
+	if in.NoModelGuide {
+		return in.Solver.CheckWith(extra), nil
+	}
+	in.Solver.Push()
+	in.Solver.Assert(extra)
+	r := in.Solver.Check()
+	var m map[string]ModelValue
+	if r == Sat {
+		mm, err := in.Solver.GetValues(in.allVars)
+		if err == nil {
+			m = mm
+		}
+	}
+	in.Solver.Pop()
+	return r, m
 }
 
 // assume adds a constraint to the path condition without forking.
@@ -343,6 +380,48 @@ func (in *Interp) assume(c *Term) {
 	}
 	in.pc = append(in.pc, c)
 	in.Solver.Assert(c)
+	in.learn(c, true)
+	if in.model != nil {
+		if v, ok := in.evalBool(c); !ok || !v {
+			in.setModel(nil)
+		}
+	}
+}
+
+// learn records atomic facts implied by an assumed condition so that later
+// decisions on structurally identical conditions need no solver query.
+func (in *Interp) learn(c *Term, val bool) {
+	switch {
+	case c.Op == OpNot:
+		in.learn(c.Args[0], !val)
+		return
+	case c.Op == OpAnd && val, c.Op == OpOr && !val:
+		in.learn(c.Args[0], val)
+		in.learn(c.Args[1], val)
+		return
+	}
+	if k := c.Key(); k != "" {
+		in.facts = append(in.facts, factEnt{k, val})
+		in.factMap[k] = val
+	}
+}
+
+type factEnt struct {
+	k string
+	v bool
+}
+
+// known reports a truth value already implied syntactically by the path.
+func (in *Interp) known(c *Term) (bool, bool) {
+	if c.Op == OpNot {
+		v, ok := in.known(c.Args[0])
+		return !v, ok
+	}
+	if k := c.Key(); k != "" {
+		v, ok := in.factMap[k]
+		return v, ok
+	}
+	return false, false
 }
 
 // define adds a definitional constraint (about a fresh variable; holds on
@@ -364,7 +443,25 @@ func (in *Interp) decide(cond *Term) bool {
 	if in.concreteGen != nil {
 		panic(&pathEnd{Kind: "unsupported", Msg: "symbolic branch in concrete mode"})
 	}
+	if v, ok := in.known(cond); ok {
+		return v
+	}
 	if in.spec > 0 {
+		if v, ok := in.evalBool(cond); ok {
+			other := cond
+			if v {
+				other = Not(cond)
+			}
+			if in.Solver.CheckWith(other) == Unsat {
+				if v {
+					in.assume(cond)
+				} else {
+					in.assume(Not(cond))
+				}
+				return v
+			}
+			panic(&specAbort{"fork in region"})
+		}
 		if in.Solver.CheckWith(cond) == Unsat {
 			in.assume(Not(cond))
 			return false
@@ -390,25 +487,51 @@ func (in *Interp) decide(cond *Term) bool {
 		if len(in.decisions) >= in.MaxDecisions {
 			panic(&pathEnd{Kind: "budget", Msg: "decision budget"})
 		}
-		rT := in.Solver.CheckWith(cond)
-		var rF Result
-		if rT == Unsat {
-			rF = Sat // pc is satisfiable, so the other side must be
-		} else {
-			rF = in.Solver.CheckWith(Not(cond))
+		addSib := func(dd int, m map[string]ModelValue) {
+			sib := append(append([]int{}, in.decisions...), dd|site<<16)
+			in.newSibs = append(in.newSibs, Sib{Prefix: sib, Model: m})
 		}
-		if rT == Unknown || rF == Unknown {
-			in.H.noteInconclusive("feasibility unknown at " + in.where() + ": " + in.Solver.LastErr)
-		}
-		switch {
-		case rT != Unsat && rF != Unsat:
-			d = 1
-			sib := append(append([]int{}, in.decisions...), 0|site<<16)
-			in.newSibs = append(in.newSibs, sib)
-		case rT != Unsat:
-			d = 1
-		default:
+		if v, ok := in.evalBool(cond); ok {
+			// the witness model satisfies side v: only the other side needs a query
+			other := cond
+			if v {
+				other = Not(cond)
+			}
+			r, m := in.checkModel(other)
+			if r == Unknown {
+				in.H.noteInconclusive("feasibility unknown at " + in.where() + ": " + in.Solver.LastErr)
+			}
 			d = 0
+			if v {
+				d = 1
+			}
+			if r != Unsat {
+				addSib(1-d, m)
+			}
+		} else {
+			rT, mT := in.checkModel(cond)
+			var rF Result
+			var mF map[string]ModelValue
+			if rT == Unsat {
+				rF = Sat // pc is satisfiable, so the other side must be
+			} else {
+				rF, mF = in.checkModel(Not(cond))
+			}
+			if rT == Unknown || rF == Unknown {
+				in.H.noteInconclusive("feasibility unknown at " + in.where() + ": " + in.Solver.LastErr)
+			}
+			switch {
+			case rT != Unsat && rF != Unsat:
+				d = 1
+				addSib(0, mF)
+				in.setModel(mT)
+			case rT != Unsat:
+				d = 1
+				in.setModel(mT)
+			default:
+				d = 0
+				in.setModel(nil)
+			}
 		}
 		in.pos++
 		in.decisions = append(in.decisions, d|site<<16)
@@ -440,7 +563,7 @@ func (in *Interp) choose(n int) int {
 		d = 0
 		for k := n - 1; k >= 1; k-- {
 			sib := append(append([]int{}, in.decisions...), k|site<<16)
-			in.newSibs = append(in.newSibs, sib)
+			in.newSibs = append(in.newSibs, Sib{Prefix: sib, Model: in.model})
 		}
 	}
 	in.pos++
